@@ -43,7 +43,7 @@ def dig(obj):
     return hashlib.sha1(json.dumps(obj, sort_keys=True, default=str).encode()).hexdigest()[:12]
 
 
-class CaseTimeout(Exception):
+class CaseTimeout(BaseException):
     pass
 
 
@@ -104,6 +104,7 @@ def _wshard(arg):
     agg = {
         "si": si,
         "n": 0,
+        "states": 0,
         "rows": 0,
         "status": {},
         "outcomes": set(),
@@ -118,11 +119,18 @@ def _wshard(arg):
         "keys": 0,
     }
     keyacc = hashlib.sha1()
+    t_sh = time.time()
+    agg["slow"] = []
     for case in mod.cases(shard):
+        t_c = time.time()
         r = run_one(mod, case)
+        t_c = time.time() - t_c
+        if t_c > 1.0:
+            agg["slow"].append((round(t_c, 2), case["key"][-160:]))
         h = khash(case["key"])
         keyacc.update(h.encode())
         agg["n"] += 1
+        agg["states"] += r.get("states", 1)
         agg["rows"] += r.get("rows", 0)
         st = r["status"]
         agg["status"][st] = agg["status"].get(st, 0) + 1
@@ -153,6 +161,8 @@ def _wshard(arg):
             if len(agg["errors"]) < 5:
                 agg["errors"].append({"case": case, "detail": r.get("detail")})
     agg["keys"] = keyacc.hexdigest()
+    agg["wall"] = time.time() - t_sh
+    agg["shard"] = shard
     return agg
 
 
@@ -212,6 +222,7 @@ def main(modname, tier, collect=None):
     aggs.sort(key=lambda a: a["si"])
 
     n = sum(a["n"] for a in aggs)
+    nstates = sum(a["states"] for a in aggs)
     rows = sum(a["rows"] for a in aggs)
     status = {}
     outcomes, nontriv = set(), set()
@@ -232,6 +243,14 @@ def main(modname, tier, collect=None):
         viol.extend(a["viol"])
         nviol += a["nviol"]
         errors.extend(a["errors"])
+
+    if os.environ.get("VERIF_PROFILE"):
+        for a in sorted(aggs, key=lambda a: -a["wall"])[:8]:
+            print("PROFILE shard %.1fs n=%d %s" % (a["wall"], a["n"], json.dumps(a["shard"])[:200]))
+        slow = sorted([x for a in aggs for x in a["slow"]], reverse=True)
+        print("PROFILE cases slower than 1s: %d, total %.0fs" % (len(slow), sum(x[0] for x in slow)))
+        for x in slow[:12]:
+            print("PROFILE   %.1fs %r" % x)
 
     if errors:
         for e in errors[:3]:
@@ -284,7 +303,8 @@ def main(modname, tier, collect=None):
         "wall_s": round(time.time() - t0, 2),
         "violations": nviol,
         "coverage": {
-            "states": n,
+            "states": nstates,
+            "cases": n,
             "transitions": rows,
             "traces_validated_against_impl": executed,
             "oracle_conformance_comparisons": conf_n,
@@ -309,7 +329,7 @@ def main(modname, tier, collect=None):
     }
     write_evidence(pid, ev)
     print("%s %s: states=%d transitions=%d distinct_outcomes=%d nontrivial=%d status=%s known=%s "
-          "violations=%d wall=%.1fs" % (pid, tier, n, rows, len(outcomes), len(nontriv),
+          "violations=%d wall=%.1fs" % (pid, tier, nstates, rows, len(outcomes), len(nontriv),
                                        json.dumps(status, sort_keys=True), json.dumps(known_hits, sort_keys=True),
                                        nviol, time.time() - t0))
     return 1 if nviol else 0
